@@ -585,6 +585,12 @@ func runHistories(r *ev.Run) {
 				// transitions, which the timelines cover; histories of depth 1 only
 				vdepth = 1
 			}
+			if (prop == "C05" || prop == "C15") && !r.Thorough() && (opts.Runtime && opts.MinTransactBalance > 0 || opts.SlashAmount > 1000 || opts.CommonPool > 0 && opts.CommonPool < 1000 || opts.GovMetadata || len(opts.Prefix) > 0 && opts.Prefix[0] == "escrow(e1->e0,400)") {
+				// quick tier: these worlds exist for one mechanism each (a credit failing on the destination side, a
+				// penalty that takes everything while delegations debond, rewards meeting a depleted pool, proposals
+				// with metadata, chained escrows released in one block), which single letters and the timelines reach
+				vdepth = 1
+			}
 			if prop == "C01" && !r.Thorough() && opts.Focus != "" {
 				vdepth = 1
 			}
